@@ -98,6 +98,12 @@ def walk(name, n, seed, length, led, clauses, tier="quick", with_evolve=True):
                         led.check(ok, f"frame:{fn}:mutating_result_leaves_inputs", fn,
                                   f"in-place scale+canonicalise of the result of {opname} changed '{L.tag}'", key + ("mut", L.tag), fields, rep)
         if "sector" in clauses:
+            for L in pool:
+                if L is new or L in modified:
+                    continue
+                led.check(L.meta_ok(), f"post:{fn}:other_live_objects_stay_qn_valid", fn,
+                          f"after {opname}: '{L.tag}' qntot={np.asarray(L.obj.qntot).tolist()} (recorded {L.sector.tolist()}) qnv={S.qnv_violations(L.obj)[:1]}",
+                          key + ("sector-others", L.tag), fields, rep)
             for L in ([new] if new is not None else []) + list(modified):
                 v = S.qnv_violations(L.obj)
                 led.check(not v, f"post:{fn}:qn_valid", fn, f"after {opname}: labels invalid: {v[:1]}", key + ("qnv", L.tag), fields, rep)
